@@ -23,6 +23,7 @@ def counting(U):
             ["rcnt(lb, lk) == rcnt(la, lk) + ite(lg < lk, 1, 0)"], induct="lk", unfold=[ua, ub])
     U.lemma("rc_full", {"la": RA, "lk": INT}, ["lk >= 0", "rcnt(la, lk) == lk"], ["forall(h, 0, lk, la[h])"], induct="lk",
             unfold=[ua, "lemma_inst('rc_bounds', la, lk - 1)"])
+    U.lemma("rc_all", {"la": RA, "lk": INT}, ["lk >= 0", "forall(h, 0, lk, la[h])"], ["rcnt(la, lk) == lk"], induct="lk", unfold=[ua])
     U.var("h", INT)
 
 
